@@ -109,4 +109,61 @@ mod native {
         }
         assert!(docs >= 84);
     }
+
+    // C17 "name ... equal what the document says": for names that are valid UTF-8 the model holds exactly those bytes; a name
+    // that is not valid UTF-8 cannot be held by a String, so the document must be rejected (never silently altered).  BOUNDED:
+    // every 1- and 2-byte name over {a, 0x80, 0xC3, 0xA9, 0xE9, 0xFF} plus "caf\xE9" and "caf\xC3\xA9".
+    #[test]
+    fn native_c17_names_are_faithful_or_rejected() {
+        let alphabet = [b'a', 0x80u8, 0xC3, 0xA9, 0xE9, 0xFF];
+        let mut names: Vec<Vec<u8>> = vec![b"caf\xE9".to_vec(), b"caf\xC3\xA9".to_vec()];
+        for x in alphabet { names.push(vec![x]); for y in alphabet { names.push(vec![x, y]); } }
+        for name in names.iter() {
+            let mut d = format!("d8:announce3:url4:infod6:lengthi5e4:name{}:", name.len()).into_bytes();
+            d.extend_from_slice(name);
+            d.extend_from_slice(b"12:piece lengthi8e6:pieces20:");
+            d.extend(std::iter::repeat(5u8).take(20));
+            d.extend_from_slice(b"ee");
+            match Metainfo::from_bencode(&d) {
+                Ok(m) => assert!(m.name.as_bytes() == &name[..], "name bytes {:?} were parsed as {:?}", name, m.name.as_bytes()),
+                Err(_) => assert!(std::str::from_utf8(name).is_err(), "valid UTF-8 name {:?} rejected", name),
+            }
+        }
+    }
+
+    // C17 "every accessor is then safe to call for every valid piece index" -- BOUNDED second line behind the proofs of the accessors
+    // (it decides changes that lose a proof anchor): every single-file document with length 0..=9, piece length 0..=4 and 0..=3
+    // piece hashes, and every two-file document over lengths {0,1,5}; whenever the REAL parser accepts, every accessor is called
+    // for every index under catch_unwind.
+    #[test]
+    fn native_c17_accessors_never_panic_small_documents() {
+        let mut accepted = 0;
+        let mut docs: Vec<Vec<u8>> = vec![];
+        for len in 0..=9u64 { for pl in 0..=4u64 { for np in 0..=3usize {
+            let mut d = format!("d8:announce3:url4:infod6:lengthi{}e4:name1:n12:piece lengthi{}e6:pieces{}:", len, pl, 20 * np).into_bytes();
+            d.extend(std::iter::repeat(3u8).take(20 * np));
+            d.extend_from_slice(b"ee");
+            docs.push(d);
+        } } }
+        for l1 in [0u64, 1, 5] { for l2 in [0u64, 1, 5] { for pl in 1..=3u64 { for np in 0..=3usize {
+            let mut d = format!("d8:announce3:url4:infod5:filesld6:lengthi{}e4:path1:aed6:lengthi{}e4:path1:bee4:name1:n12:piece lengthi{}e6:pieces{}:", l1, l2, pl, 20 * np).into_bytes();
+            d.extend(std::iter::repeat(3u8).take(20 * np));
+            d.extend_from_slice(b"ee");
+            docs.push(d);
+        } } } }
+        for d in docs.iter() {
+            let r = std::panic::catch_unwind(|| {
+                if let Ok(m) = Metainfo::from_bencode(d) {
+                    let _ = (m.tracker_url().len(), m.total_length(), m.info_hash()[0], m.file_piece_ranges().len());
+                    for i in 0..m.pieces_num() { let _ = (m.piece(i)[0], m.piece_length(i)); }
+                    true
+                } else { false }
+            });
+            match r {
+                Ok(ok) => { if ok { accepted += 1; } }
+                Err(_) => panic!("an accessor panicked on the accepted document {:?}", String::from_utf8_lossy(d)),
+            }
+        }
+        assert!(accepted > 100, "only {} documents accepted", accepted);
+    }
 }
